@@ -181,7 +181,9 @@ var osFuncs = map[string]string{
 	"Getpid": "Getpid", "Getppid": "Getppid", "Hostname": "Hostname",
 	"Getenv": "Getenv", "LookupEnv": "LookupEnv", "Environ": "Environ",
 }
-var timeFuncs = map[string]string{"Now": "Now", "Since": "Since", "Until": "Until", "Sleep": "Sleep"}
+var timeFuncs = map[string]string{"Now": "Now", "Since": "Since", "Until": "Until", "Sleep": "Sleep",
+	// timers and tickers (functions and the two types): simulated, see verifsimrt/tasks.go
+	"Tick": "TimeTick", "NewTicker": "NewTicker", "NewTimer": "NewTimer", "After": "After", "AfterFunc": "AfterFunc", "Timer": "Timer", "Ticker": "Ticker"}
 
 // os functions that touch the real host and that the simulator does not model
 var osUnmodelled = map[string]bool{
@@ -215,14 +217,13 @@ func instrumentPackage(p *packages.Package, simPath string, callable *types.Inte
 		usedSim := false
 		siteN := 0
 
+		// (0) goroutines, channel operations, select, blocking sync methods (verifsimrt/tasks.go)
+		if instrumentConcurrency(file, info, fset) {
+			usedSim = true
+		}
+
 		// (a) ticks and builtin markers, range-over-map: pre-order pass on statements
 		astutil.Apply(file, func(c *astutil.Cursor) bool {
-			switch n := c.Node().(type) {
-			case *ast.GoStmt:
-				rep.Unmodelled = append(rep.Unmodelled, fmt.Sprintf("%s: go statement", fset.Position(n.Pos())))
-			case *ast.SelectStmt:
-				rep.Unmodelled = append(rep.Unmodelled, fmt.Sprintf("%s: select", fset.Position(n.Pos())))
-			}
 			return true
 		}, func(c *astutil.Cursor) bool {
 			switch n := c.Node().(type) {
@@ -390,7 +391,11 @@ func instrumentPackage(p *packages.Package, simPath string, callable *types.Inte
 					} else if name == "NumGoroutine" || name == "NumCPU" || name == "GOMAXPROCS" {
 						rep.Unmodelled = append(rep.Unmodelled, fmt.Sprintf("%s: runtime.%s", fset.Position(n.Pos()), name))
 					}
-				case "crypto/rand", "unsafe", "sync", "sync/atomic", "os/exec", "os/signal", "net", "syscall":
+				case "sync":
+					if name != "Mutex" && name != "RWMutex" && name != "WaitGroup" && name != "Once" {
+						rep.Unmodelled = append(rep.Unmodelled, fmt.Sprintf("%s: sync.%s", fset.Position(n.Pos()), name))
+					}
+				case "crypto/rand", "unsafe", "os/exec", "os/signal", "net", "syscall":
 					rep.Unmodelled = append(rep.Unmodelled, fmt.Sprintf("%s: %s.%s", fset.Position(n.Pos()), pp, name))
 				}
 			}
@@ -623,4 +628,227 @@ func fixImports(fname string, src []byte, simPath string) []byte {
 		die("format %s: %v", fname, err)
 	}
 	return buf.Bytes()
+}
+
+// ---------------------------------------------------------------- concurrency
+
+var selN, goN int
+
+var syncMethods = map[string]string{
+	"(*sync.Mutex).Lock": "MutexLock", "(*sync.Mutex).Unlock": "MutexUnlock",
+	"(*sync.RWMutex).Lock": "RWLock", "(*sync.RWMutex).Unlock": "RWUnlock", "(*sync.RWMutex).RLock": "RWRLock", "(*sync.RWMutex).RUnlock": "RWRUnlock",
+	"(*sync.WaitGroup).Add": "WGAdd", "(*sync.WaitGroup).Done": "WGDone", "(*sync.WaitGroup).Wait": "WGWait",
+	"(*sync.Once).Do": "OnceDo",
+}
+
+// instrumentConcurrency rewrites, in one file:
+//   go f(a, b)            -> { verifGoF := f; verifGoA0 := a; ...; verifsimrt.Go(func() { verifGoF(verifGoA0, ...) }) }
+//   <-ch                  -> verifsimrt.Recv(ch)            (v, ok := <-ch -> verifsimrt.Recv2(ch))
+//   ch <- v               -> verifsimrt.Send(ch, v)
+//   for v := range ch {}  -> for { verifV, verifOK := verifsimrt.Recv2(ch); if !verifOK { break }; v := verifV; ... }
+//   select without default-> L: select { ...; default: verifsimrt.YieldBlocked(); goto L }
+//   mu.Lock() etc.        -> verifsimrt.MutexLock(&mu) etc.
+// The communication operations that head the clauses of a select stay as they are (they are
+// tried without blocking by the select itself).
+func instrumentConcurrency(file *ast.File, info *types.Info, fset *token.FileSet) bool {
+	used := false
+	inComm := map[ast.Node]bool{}
+	ast.Inspect(file, func(n ast.Node) bool {
+		if cc, ok := n.(*ast.CommClause); ok && cc.Comm != nil {
+			switch st := cc.Comm.(type) {
+			case *ast.ExprStmt:
+				inComm[st.X] = true
+			case *ast.AssignStmt:
+				if len(st.Rhs) == 1 {
+					inComm[st.Rhs[0]] = true
+				}
+				inComm[st] = true
+			case *ast.SendStmt:
+				inComm[st] = true
+			}
+		}
+		return true
+	})
+	isRecv := func(e ast.Expr) (*ast.UnaryExpr, bool) {
+		for {
+			if p, ok := e.(*ast.ParenExpr); ok {
+				e = p.X
+				continue
+			}
+			break
+		}
+		u, ok := e.(*ast.UnaryExpr)
+		return u, ok && u.Op == token.ARROW
+	}
+	astutil.Apply(file, func(c *astutil.Cursor) bool {
+		switch n := c.Node().(type) {
+		case *ast.AssignStmt:
+			if len(n.Lhs) == 2 && len(n.Rhs) == 1 && !inComm[n] {
+				if u, ok := isRecv(n.Rhs[0]); ok && !inComm[u] {
+					n.Rhs[0] = &ast.CallExpr{Fun: simSel("Recv2"), Args: []ast.Expr{u.X}}
+					rep.Rewrites["chan receive"]++
+					used = true
+				}
+			}
+		case *ast.ValueSpec:
+			if len(n.Names) == 2 && len(n.Values) == 1 {
+				if u, ok := isRecv(n.Values[0]); ok {
+					n.Values[0] = &ast.CallExpr{Fun: simSel("Recv2"), Args: []ast.Expr{u.X}}
+					rep.Rewrites["chan receive"]++
+					used = true
+				}
+			}
+		case *ast.UnaryExpr:
+			if n.Op == token.ARROW && !inComm[n] {
+				c.Replace(&ast.CallExpr{Fun: simSel("Recv"), Args: []ast.Expr{n.X}})
+				rep.Rewrites["chan receive"]++
+				used = true
+			}
+		case *ast.SendStmt:
+			if !inComm[n] {
+				c.Replace(&ast.ExprStmt{X: &ast.CallExpr{Fun: simSel("Send"), Args: []ast.Expr{n.Chan, n.Value}}})
+				rep.Rewrites["chan send"]++
+				used = true
+			}
+		}
+		return true
+	}, func(c *astutil.Cursor) bool {
+		switch n := c.Node().(type) {
+		case *ast.GoStmt:
+			goN++
+			var pre []ast.Stmt
+			call := &ast.CallExpr{Fun: n.Call.Fun, Ellipsis: n.Call.Ellipsis}
+			if _, isLit := n.Call.Fun.(*ast.FuncLit); !isLit {
+				fv := ast.NewIdent(fmt.Sprintf("verifGoF%d", goN))
+				pre = append(pre, &ast.AssignStmt{Lhs: []ast.Expr{fv}, Tok: token.DEFINE, Rhs: []ast.Expr{n.Call.Fun}})
+				call.Fun = fv
+			} else {
+				call.Fun = &ast.ParenExpr{X: n.Call.Fun}
+			}
+			for i, a := range n.Call.Args {
+				av := ast.NewIdent(fmt.Sprintf("verifGoA%d_%d", goN, i))
+				pre = append(pre, &ast.AssignStmt{Lhs: []ast.Expr{av}, Tok: token.DEFINE, Rhs: []ast.Expr{a}})
+				call.Args = append(call.Args, av)
+			}
+			lit := &ast.FuncLit{Type: &ast.FuncType{Params: &ast.FieldList{}}, Body: &ast.BlockStmt{List: []ast.Stmt{&ast.ExprStmt{X: call}}}}
+			pre = append(pre, &ast.ExprStmt{X: &ast.CallExpr{Fun: simSel("Go"), Args: []ast.Expr{lit}}})
+			c.Replace(&ast.BlockStmt{List: pre})
+			rep.Rewrites["go statement"]++
+			used = true
+		case *ast.RangeStmt:
+			t := info.TypeOf(n.X)
+			if t == nil {
+				return true
+			}
+			if _, isChan := t.Underlying().(*types.Chan); !isChan {
+				return true
+			}
+			vv, okv := ast.NewIdent("verifV"), ast.NewIdent("verifOK")
+			lhsV := ast.Expr(vv)
+			keyUsed := n.Key != nil && !isBlank(n.Key)
+			if !keyUsed {
+				lhsV = ast.NewIdent("_")
+			}
+			body := []ast.Stmt{
+				&ast.AssignStmt{Lhs: []ast.Expr{lhsV, okv}, Tok: token.DEFINE, Rhs: []ast.Expr{&ast.CallExpr{Fun: simSel("Recv2"), Args: []ast.Expr{n.X}}}},
+				&ast.IfStmt{Cond: &ast.UnaryExpr{Op: token.NOT, X: okv}, Body: &ast.BlockStmt{List: []ast.Stmt{&ast.BranchStmt{Tok: token.BREAK}}}},
+			}
+			if keyUsed {
+				tok := n.Tok
+				if tok != token.ASSIGN {
+					tok = token.DEFINE
+				}
+				body = append(body, &ast.AssignStmt{Lhs: []ast.Expr{n.Key}, Tok: tok, Rhs: []ast.Expr{vv}})
+				if tok == token.DEFINE {
+					body = append(body, &ast.AssignStmt{Lhs: []ast.Expr{ast.NewIdent("_")}, Tok: token.ASSIGN, Rhs: []ast.Expr{n.Key}})
+				}
+			}
+			body = append(body, n.Body.List...)
+			c.Replace(&ast.ForStmt{Body: &ast.BlockStmt{List: body}})
+			rep.Rewrites["range over channel"]++
+			used = true
+		case *ast.SelectStmt:
+			for _, cl := range n.Body.List {
+				if cl.(*ast.CommClause).Comm == nil {
+					return true // has a default clause: never blocks
+				}
+			}
+			var label *ast.Ident
+			if ls, ok := c.Parent().(*ast.LabeledStmt); ok && ls.Stmt == n {
+				label = ls.Label
+			} else {
+				selN++
+				label = ast.NewIdent(fmt.Sprintf("verifSel%d", selN))
+			}
+			n.Body.List = append(n.Body.List, &ast.CommClause{Body: []ast.Stmt{
+				simCallStmt("YieldBlocked"),
+				&ast.BranchStmt{Tok: token.GOTO, Label: ast.NewIdent(label.Name)},
+			}})
+			if _, ok := c.Parent().(*ast.LabeledStmt); !ok {
+				c.Replace(&ast.LabeledStmt{Label: label, Stmt: n})
+			}
+			rep.Rewrites["select"]++
+			for _, cl := range n.Body.List {
+				cc := cl.(*ast.CommClause)
+				var ch ast.Expr
+				switch st := cc.Comm.(type) {
+				case *ast.ExprStmt:
+					if u, ok := isRecv(st.X); ok {
+						ch = u.X
+					}
+				case *ast.AssignStmt:
+					if u, ok := isRecv(st.Rhs[0]); ok {
+						ch = u.X
+					}
+				case *ast.SendStmt:
+					ch = st.Chan
+				}
+				if ch != nil {
+					rep.Warnings = append(rep.Warnings, fmt.Sprintf("%s: select clause on %s is tried without blocking; a rendezvous on an UNBUFFERED channel inside select is not modelled", fset.Position(cc.Pos()), nodeString(fset, ch)))
+				}
+			}
+			used = true
+		case *ast.CallExpr:
+			sel, ok := n.Fun.(*ast.SelectorExpr)
+			if !ok {
+				return true
+			}
+			fn, ok := info.Uses[sel.Sel].(*types.Func)
+			if !ok || fn.Pkg() == nil || fn.Pkg().Path() != "sync" {
+				return true
+			}
+			to, ok := syncMethods[fn.FullName()]
+			if !ok {
+				rep.Unmodelled = append(rep.Unmodelled, fmt.Sprintf("%s: %s", fset.Position(n.Pos()), fn.FullName()))
+				return true
+			}
+			recv := sel.X
+			if s := info.Selections[sel]; s != nil {
+				// promoted method: spell out the embedded fields
+				idx := s.Index()
+				t := s.Recv()
+				for _, i := range idx[:len(idx)-1] {
+					if p, ok := t.Underlying().(*types.Pointer); ok {
+						t = p.Elem()
+					}
+					st, ok := t.Underlying().(*types.Struct)
+					if !ok {
+						break
+					}
+					f := st.Field(i)
+					recv = &ast.SelectorExpr{X: recv, Sel: ast.NewIdent(f.Name())}
+					t = f.Type()
+				}
+				if _, isPtr := t.Underlying().(*types.Pointer); !isPtr {
+					recv = &ast.UnaryExpr{Op: token.AND, X: recv}
+				}
+			}
+			n.Fun = simSel(to)
+			n.Args = append([]ast.Expr{recv}, n.Args...)
+			rep.Rewrites["sync."+to]++
+			used = true
+		}
+		return true
+	})
+	return used
 }
